@@ -125,7 +125,8 @@ def run(ctx):
         for _ in range(60):
             worlds.append([[g.r.choice(KINDS) for _ in range(g.r.randint(1, 2))] for _ in range(3)])
     else:
-        worlds += [[['create', 'update'], ['update', 'create']], [['update'], ['create'], ['match']]]
+        worlds += [[['create', 'update'], ['update', 'create']], [['update'], ['create'], ['match']],
+                   [['match'], ['create', 'create']], [['create', 'create'], ['match']], [['update', 'match'], ['match', 'update']]]
     ops, meta = [], {}
     for w in worlds:
         i_s, p_s, init, progs = world(w)
